@@ -40,6 +40,11 @@ def run(ctx):
     _anchor_component(ctx, provider="pytz")
     _anchor_manual(ctx)
     _triggers(ctx)
+    # a TRIGGER / DURATION read from text is the value the text denotes (every dur-value form,
+    # sign and length; weeks included) - the decoder sweep of the codec model
+    from .. import codecmodel
+    codecmodel.report(ctx, "C14/TRIGGER-TEXT", codecmodel.explore_dispatch, ["classification"],
+                      ctx.model.cls("prop.vDuration").loc(), 100)
 
 
 # ---------------------------------------------------------------------------
